@@ -55,6 +55,16 @@ def text_view(res):
             "keys": [[ns["key"], sorted(map(list, (p for p, _ in iter_bki(ns["keys"]))))] for ns in res["ok"]["nss"]]}
 
 
+def has_integer_beyond_i64(p):
+    def walk(j):
+        if isinstance(j, dict):
+            if "u" in j and isinstance(j["u"], int) and j["u"] > 2 ** 63 - 1:
+                return True
+            return any(walk(v) for v in j.get("a") or []) or any(walk(kv[1]) for kv in j.get("o") or [])
+        return False
+    return any(walk(t) for t in p["files"].values())
+
+
 def run(ctx):
     lean_check(ctx, "I18nVerif.Theorems.C10", "C10_")
     rng = ctx.rng
@@ -74,6 +84,8 @@ def run(ctx):
               dup_project([("x", "$t(nope_one)"), ("y", "$t(nope_two)")]), dup_project([("y", "$t(nope_two)"), ("x", "$t(nope_one)")]),
               dup_project([("p_one", "1"), ("p_other", "n"), ("p", "clash"), ("q_one", "1"), ("q_other", "n"), ("q", "clash")]),
               dup_project([("m", "$t(a, {\"count\": \"x\"})"), ("a", proj.A([proj.A(["v", proj.U(1)]), proj.A(["w"])])), ("n", "$t(zz)")])]
+    # witness of the recorded finding C10-json5-u64 (integers above i64::MAX are JSON / YAML only)
+    corpus.append(dup_project([("info", proj.U(18446744073709551615)), ("n", proj.A(["u64", proj.A(["max", proj.U(18446744073709551615)]), proj.A(["rest"])]))]))
     projects = corpus + [proj.gen_project(rng) for _ in range(ctx.budget(250, 5000))]
     base = run_projects(ctx, bins["json"], projects)
     again = run_projects(ctx, bins["json"], projects, want_model=False)
@@ -113,6 +125,11 @@ def run(ctx):
             rb = b["impl"].get("result", {})
             va, vb = text_view(ra), text_view(rb)
             if va != vb:
+                if f == "json5" and "error parsing integer" in str(rb.get("msg", "")) and has_integer_beyond_i64(p):
+                    # the json5 crate (0.4.1) reads integers as i64: a u64 literal / count above i64::MAX is rejected in that format only
+                    report_violation(ctx, "determinism:json5-integer-beyond-i64", {
+                        "case": project_text(p), "format": f, "files_in_format": proj.file_list(p, f), "json_result": str(ra)[:300], "other_result": str(rb)[:300]})
+                    continue
                 report_violation(ctx, "determinism:file-format-changes-result:" + f, {
                     "case": project_text(p), "format": f, "files_in_format": proj.file_list(p, f), "diff": proj.first_diff(va, vb),
                     "json_result": str(ra)[:400], "other_result": str(rb)[:400], "expected_by_spec": "same keys, diagnostics and rendered text"})
